@@ -9,7 +9,7 @@ from sa.canon import canon, same
 from sa.index import AnalysisError, ClassInfo
 from sa.peval import fold_str_methods, peval
 from sa.report import Ctx
-from sa.sym import FALSE, NONE, Summary, conjuncts, show, walk
+from sa.sym import callkw, FALSE, NONE, Summary, conjuncts, show, walk
 
 CONV = "soundevent.geometry.conversion"
 FEAT = "soundevent.geometry.features"
@@ -312,7 +312,7 @@ class C05:
             if not (item[0] == "call" and item[1][0] == "global" and item[1][1].endswith(":Feature")):
                 ctx.undec("R05.4", site, f"list element is not Feature(...): {show(item)[:50]}")
                 continue
-            kw = dict(item[3])
+            kw = callkw(item)
             term, val = kw.get("term"), kw.get("value")
             if term is None or val is None or term[0] != "global":
                 ctx.undec("R05.4", site, f"Feature without resolvable term/value: {show(item)[:60]}")
@@ -361,16 +361,22 @@ class C05:
 
         tsel = {"left": B[0], "center": mid(B[0], B[2]), "right": B[2]}
         fsel = {"bottom": B[1], "center": mid(B[1], B[3]), "top": B[3]}
+        # `get_args(Positions)` is the tuple of the literal's names
+        from sa.sym import Event, subst as _subst
+        ga = {("call", ("ext", "typing.get_args"), (("global", f"{OPS}:Positions", "assign"),), ()):
+              ("tuple", tuple(("const", n) for n in names))}
+        s_returns = [Event(r.kind, _subst(r.live, ga), _subst(r.term, ga), r.node, r.loops, r.idx) for r in s.returns]
+        s_raises = [Event(r.kind, _subst(r.live, ga), _subst(r.term, ga), r.node, r.loops, r.idx) for r in s.raises]
         for p in sorted(want_names):
             env = {pos: p}
             outs = []
-            for r in s.returns:
+            for r in s_returns:
                 lv = peval(fold_str_methods(peval(r.live, env)), {})
                 if lv[0] == "const" and not lv[1]:
                     continue
                 val = peval(fold_str_methods(peval(r.term, env)), {})
                 outs.append((lv, val, r))
-            rs = [x for x in s.raises if peval(fold_str_methods(peval(x.live, env)), {}) == ("const", True)]
+            rs = [x for x in s_raises if peval(fold_str_methods(peval(x.live, env)), {}) == ("const", True)]
             definite = [o for o in outs if o[0] == ("const", True)]
             site = f"{file}:{s.node.lineno} get_geometry_point[{p}]"
             if rs or len(definite) != 1:
@@ -406,7 +412,7 @@ class C05:
                         witness={"position": p})
         # invalid names are rejected
         env = {pos: "no-such-position"}
-        rs = [x for x in s.raises if peval(fold_str_methods(peval(x.live, env)), {}) == ("const", True)]
+        rs = [x for x in s_raises if peval(fold_str_methods(peval(x.live, env)), {}) == ("const", True)]
         if rs:
             ctx.ok("R05.5", f"{file}:{s.node.lineno} get_geometry_point", "unknown position rejected")
         else:
